@@ -12,6 +12,11 @@ VARIANTS = {
     'flip-comparisons(a>=b -> not a<b)': M.flip_comparisons,
     'swap-if-else': M.swap_if_else,
     'aug-to-assign(x+=y -> x=x+y)': M.aug_to_assign,
+    'else-to-early-exit': M.else_to_early_exit,
+    'early-exit-to-else': M.early_exit_to_else,
+    'name-call-results(return f() -> r = f(); return r)': M.name_call_results,
+    'ifexp-to-statement': M.ifexp_to_statement,
+    'comprehension-to-loop': M.comprehension_to_loop,
 }
 
 
